@@ -3,26 +3,62 @@
    NV.Bam.Decode (io/reader/record.rs, record/codec/decoder*.rs, slices of record_ref.rs),
    bin = NV.Index.Bins.reg2bin 14 5 (shared with C17). *)
 From Coq Require Import List NArith ZArith Bool Lia ZifyBool ZifyNat ZifyN.
-From NV Require Import Index.Bins Bam.Record Bam.Encode Bam.Decode Bam.CodecProofs.
+From NV Require Import Index.Bins Bam.Record Bam.Encode Bam.Decode Bam.Lazy Bam.CodecProofs Bam.AuxProofs Bam.LazyProofs Bam.LazyCigarProofs.
 Import ListNotations.
 Open Scope N_scope.
 
-(* The full statement: every record the writer accepts is read back equal up to [norm]
-   (bases case-folded / non-IUPAC -> N, a user CG field dropped). *)
-Definition c05_decode_encode_full_statement : Prop :=
-  forall nref r block, wf r -> NoDup (map fst (r_data r)) ->
+(* The whole property: every record the writer accepts is read back equal up to [norm]
+   (bases case-folded / non-IUPAC -> N, a user CG field dropped) -- any auxiliary data, any number
+   of CIGAR operations (more than 65535 through the kSmN + CG:B,I convention).
+   [wf r], [wf_data] and [NoDup] are the Rust type invariants of RecordBuf: flags within 12 bits,
+   MAPQ <> 255, positions >= 1, i32 template length, CIGAR kinds 0..8; every auxiliary number within
+   the range of its Rust type (i8/u8/i16/u16/i32/u32, f32 bit pattern), strings of type Z or H,
+   array subtypes cCsSiIf; Data holds at most one field per tag. *)
+Theorem c05_decode_encode :
+  forall nref r block,
+    wf r -> wf_data (r_data r) -> NoDup (map fst (r_data r)) ->
     encode nref r = Ok block -> decode block = Ok (norm r).
+Proof. exact decode_encode. Qed.
+Print Assumptions c05_decode_encode.
 
-(* Proved part: records without auxiliary fields and with at most 65535 CIGAR operations
-   (name, flags, ids, positions, MAPQ, bin, CIGAR, template length, bases, qualities,
-   block_size framing and the reader's layout validation).  The auxiliary data codec and the
-   CG overflow convention are covered by the model/implementation comparison only. *)
+(* the statement of the previous revision (no data, <= 65535 operations) is a special case; kept
+   because NV.Sam.BamAgree (C06) is stated in this scope *)
 Theorem c05_decode_encode_partial :
   forall nref r block,
     wf r -> r_data r = [] -> lenN (r_cigar r) <= 65535 ->
     encode nref r = Ok block -> decode block = Ok (norm r).
 Proof. exact decode_encode_nodata. Qed.
 Print Assumptions c05_decode_encode_partial.
+
+(* every typed auxiliary value (A c C s S i I f, Z H, B:cCsSiIf) at every value of its type: what
+   the encoder writes after the tag is the type byte and a payload that the decoder reads back to
+   the same value, leaving exactly the bytes that followed *)
+Theorem c05_aux_roundtrip :
+  forall v bs rest, wf_value v -> enc_value v = Ok bs ->
+    exists ty p, bs = ty :: p /\ dec_value ty (p ++ rest) = Ok (v, rest).
+Proof. exact value_roundtrip. Qed.
+Print Assumptions c05_aux_roundtrip.
+
+(* the data block: fields come back in order, the user's CG field is not written *)
+Theorem c05_data_roundtrip :
+  forall d bs, wf_data d -> enc_data d = Ok bs -> NoDup (map fst (filter notCG d)) ->
+    dec_data (length bs) bs [] = Ok (filter notCG d).
+Proof. exact dec_data_roundtrip. Qed.
+Print Assumptions c05_data_roundtrip.
+
+(* the CG convention: a CIGAR c of more than 65535 operations is stored as the placeholder
+   [bc]S[ref_span c]N with n_cigar_op = 2, its CG field decodes as the B,I array of the operation
+   words, and the reader's resolve step returns c and removes the field again *)
+Theorem c05_cg_overflow_roundtrip :
+  forall bc c d cgb sq,
+    Forall op_ok c -> 65535 < lenN c -> lenN sq = bc -> find_tag CG d = None ->
+    enc_cg c = Ok cgb ->
+    cigar_slot bc c = (2, [(4, bc); (3, ref_span c)], true) /\
+    (exists p, cgb = fst CG :: snd CG :: tyB :: p /\
+               dec_value tyB p = Ok (VArr tyI (map op_word c), [])) /\
+    resolve sq [(4, bc); (3, ref_span c)] (d ++ [(CG, VArr tyI (map op_word c))]) = Ok (c, d).
+Proof. exact cg_overflow_roundtrip. Qed.
+Print Assumptions c05_cg_overflow_roundtrip.
 
 (* Lengths, counts and coordinates that do not fit are errors, never wrapped; accepted ones are
    stored exactly. *)
@@ -118,14 +154,92 @@ Example c05_example_subsequence :
   (sub_iter (pack_bases [65; 67; 71; 84; 65]) 2 5 = [71; 84; 65]).
 Proof. vm_compute. repeat split; reflexivity. Qed.
 
-(* lazy = eager: full statement (not proved in this revision; the slice arithmetic is modelled
-   in NV.Bam.Decode (the lz_ definitions), the agreement is checked on the implementation by the harness) *)
-Definition c05_lazy_eq_eager_full_statement : Prop :=
+(* lazy = eager.  Model of the lazy side: NV.Bam.Lazy.lazy_view_of = bam::RecordRef::new(body)
+   followed by every accessor, each with its panics (slice index out of range, unreachable!()).
+   For every body that validate() accepts and the eager decoder decodes to r:
+   name, flags, reference id, position, MAPQ, mate id, mate position, template length, sequence
+   (all bases) and quality scores of the lazy view are r's fields and do not panic; data() is the
+   raw byte range that the eager decoder parses ([dec_data] of it, then [resolve], gives r's data
+   and CIGAR); cigar() (c05_lazy_cigar_eq_eager below) is r's CIGAR, also when the stored
+   operations are the kSmN placeholder and the CIGAR comes from the CG field.  Not covered: the
+   typed lazy field iterator of data() (Data::iter/get). *)
+Theorem c05_lazy_eq_eager :
+  forall body r,
+    validate body = Ok tt -> decode_body body = Ok r ->
+    exists cig,
+    lazy_view_of body =
+      Some (mkLazy (Some (r_name r)) (r_flags r) (Ok (r_rid r)) (Ok (r_pos r)) (r_mapq r)
+                   (Ok (r_mrid r)) (Ok (r_mpos r)) (r_tlen r) (lzp_cigar body)
+                   (Some (r_seq r)) (Some (r_qual r)) (Some (lz_data_raw body))) /\
+    chunk_ops (lz_cigar_raw body) = Ok cig /\
+    (exists dt, dec_data (length (lz_data_raw body)) (lz_data_raw body) [] = Ok dt /\
+                resolve (r_seq r) cig dt = Ok (r_cigar r, r_data r)) /\
+    (is_placeholder body (lz_cigar_raw body) = false ->
+       lzp_cigar body = Some (Ok (r_cigar r)) /\
+       dec_data (length (lz_data_raw body)) (lz_data_raw body) [] = Ok (r_data r)).
+Proof. exact lazy_eq_eager_fields. Qed.
+Print Assumptions c05_lazy_eq_eager.
+
+(* cigar().iter() of the lazy view: the stored operations, or -- for the placeholder kSmN -- the
+   raw CG array found by get_raw_cigar's walk of the data block with the lazy field decoders; it
+   does not panic and yields exactly the eagerly decoded (resolved) CIGAR *)
+Theorem c05_lazy_cigar_eq_eager :
   forall body r, validate body = Ok tt -> decode_body body = Ok r ->
-    lz_name body = r_name r /\ lz_flags body = r_flags r /\ lz_mapq body = r_mapq r /\
-    lz_rid body = Ok (r_rid r) /\ lz_pos body = Ok (r_pos r) /\
-    lz_mrid body = Ok (r_mrid r) /\ lz_mpos body = Ok (r_mpos r) /\ lz_tlen body = r_tlen r /\
-    lz_seq body = r_seq r /\ lz_qual body = r_qual r.
+    lzp_cigar body = Some (Ok (r_cigar r)).
+Proof. exact lazy_cigar_eq. Qed.
+Print Assumptions c05_lazy_cigar_eq_eager.
+
+(* whole view in one statement *)
+Theorem c05_lazy_view :
+  forall body r, validate body = Ok tt -> decode_body body = Ok r ->
+    lazy_view_of body =
+      Some (mkLazy (Some (r_name r)) (r_flags r) (Ok (r_rid r)) (Ok (r_pos r)) (r_mapq r)
+                   (Ok (r_mrid r)) (Ok (r_mpos r)) (r_tlen r) (Some (Ok (r_cigar r)))
+                   (Some (r_seq r)) (Some (r_qual r)) (Some (lz_data_raw body))).
+Proof.
+  intros body r Hv Hd. destruct (lazy_eq_eager_fields body r Hv Hd) as (cig & Hview & _).
+  rewrite Hview. rewrite (lazy_cigar_eq body r Hv Hd). reflexivity.
+Qed.
+Print Assumptions c05_lazy_view.
+
+(* non-vacuity of the placeholder branch: 2 bases, stored CIGAR 2S5N, data NM:C:1 then
+   CG:B,I [2M]: the lazy and the eager CIGAR are both 2M *)
+Example c05_example_lazy_placeholder :
+  let body := [255;255;255;255; 255;255;255;255; 2; 255; 72;18; 2;0; 4;0; 2;0;0;0; 255;255;255;255;
+               255;255;255;255; 0;0;0;0; 113;0; 36;0;0;0; 83;0;0;0; 18; 255;255;
+               78;77;67;1; 67;71;66;73; 1;0;0;0; 32;0;0;0] in
+  validate body = Ok tt /\ lzp_cigar body = Some (Ok [(0, 2)]) /\
+  exists r, decode_body body = Ok r /\ r_cigar r = [(0, 2)] /\ r_data r = [((78, 77), VNum tyC 1%Z)].
+Proof. vm_compute. split; [reflexivity|]. split; [reflexivity|]. eexists. repeat split; reflexivity. Qed.
+
+(* No modelled lazy accessor panics on a validated body (whether or not the eager decoder accepts
+   it), except cigar() in exactly one class: placeholder kSmN and a first CG field of type B whose
+   raw element bytes are not a whole number of 32-bit words (get_raw_cigar accepts any subtype,
+   Cigar::iter then reaches unreachable!()). *)
+Theorem c05_lazy_no_panic :
+  forall body, validate body = Ok tt ->
+    has_head body = true /\
+    lzp_name body = Some (lz_name body) /\ lzp_cigar_raw body = Some (lz_cigar_raw body) /\
+    lzp_seq body = Some (lz_seq body) /\ lzp_qual body = Some (lz_qual body) /\
+    lzp_data_raw body = Some (lz_data_raw body) /\
+    (lzp_cigar body = None <-> cg_not_words body).
+Proof.
+  intros body H. destruct (lazy_slices_ok body H) as (H1 & H2 & H3 & H4 & H5 & H6 & _).
+  repeat (split; [assumption|]). exact (lazy_cigar_panic_iff body H).
+Qed.
+Print Assumptions c05_lazy_no_panic.
+
+(* the class is inhabited: 1 base, stored CIGAR 1S39N, data CG:B,S of five elements (10 bytes);
+   the body is accepted by validate() and cigar() panics (finding
+   lazy-cigar-cg-array-not-u32-unreachable, reproduced on the implementation by the `lz` cases) *)
+Definition ex_cg_body : bytes :=
+  [255;255;255;255; 255;255;255;255; 2; 255; 72;18; 2;0; 4;0; 1;0;0;0; 255;255;255;255;
+   255;255;255;255; 0;0;0;0; 113;0; 20;0;0;0; 115;2;0;0; 240; 255;
+   67;71;66;83; 5;0;0;0; 0;4; 3;0; 6;47; 6;7; 6;4].
+Theorem c05_lazy_cigar_panic_refuted :
+  exists body, validate body = Ok tt /\ lzp_cigar body = None /\ decode_body body = Err InvalidData.
+Proof. exists ex_cg_body. vm_compute. repeat split; reflexivity. Qed.
+Print Assumptions c05_lazy_cigar_panic_refuted.
 
 (* non-vacuity: a mapped record with an odd-length lower-case/non-IUPAC sequence *)
 Definition ex_rec : record :=
@@ -149,6 +263,38 @@ Example c05_example_lazy :
     lz_name body = r_name ex_rec /\ lz_flags body = 99 /\ lz_seq body = r_seq (norm ex_rec) /\
     lz_qual body = r_qual ex_rec /\ lz_pos body = Ok (Some 16380) /\ lz_tlen body = (-150)%Z.
 Proof. eexists. eexists. split; [vm_compute; reflexivity|]. split; [reflexivity|]. vm_compute. repeat split; reflexivity. Qed.
+
+(* non-vacuity with auxiliary data of every type, a user CG field (dropped) and boundary values *)
+Definition ex_data : list (tag * value) :=
+  [((88, 65), VNum tyA 33%Z); ((88, 99), VNum tyc (-128)%Z); ((88, 67), VNum tyC 255%Z);
+   ((88, 115), VNum tys (-32768)%Z); ((88, 83), VNum tyS 65535%Z); ((88, 105), VNum tyi (-2147483648)%Z);
+   ((88, 73), VNum tyI 4294967295%Z); ((88, 102), VNum tyf 2143289344%Z);
+   (CG, VArr tyI [16%Z]);
+   ((88, 90), VStr tyZ [104; 105; 32]); ((88, 72), VStr tyH [67; 65; 70; 69]);
+   ((89, 99), VArr tyc [(-128)%Z; 127%Z]); ((89, 83), VArr tyS []); ((89, 102), VArr tyf [0%Z; 4286578688%Z])].
+Definition ex_rec_data : record :=
+  mkRecord (Some [114; 49]) 99 (Some 1) (Some 16380) (Some 60) [(4, 1); (0, 3); (2, 20); (1, 1)]
+           (Some 0) (Some 2147483648) (-150)%Z [97; 67; 120; 84; 46] [0; 93; 40; 1; 2] ex_data.
+
+Example c05_example_roundtrip_data :
+  wf_data ex_data /\ NoDup (map fst ex_data) /\
+  exists block, encode 2 ex_rec_data = Ok block /\ decode block = Ok (norm ex_rec_data) /\
+  lenN (r_data (norm ex_rec_data)) = 13.
+Proof.
+  split; [|split].
+  - unfold wf_data, ex_data.
+    repeat (apply Forall_cons;
+            [cbv -[Z.le Z.lt]; try lia; auto; repeat (constructor; cbv beta; try lia)|]).
+    apply Forall_nil.
+  - assert (H : forall l : list tag, (fix nodup (l : list tag) : bool :=
+        match l with [] => true | x :: r => negb (existsb (tag_eqb x) r) && nodup r end) l = true -> NoDup l).
+    { induction l as [|x l IH]; intros H; [constructor|]. apply andb_true_iff in H. destruct H as [H1 H2].
+      constructor; [|exact (IH H2)]. intros Hin. apply negb_true_iff in H1.
+      assert (Hex : existsb (tag_eqb x) l = true) by (apply existsb_exists; exists x; split; [exact Hin|apply tag_eqb_eq; reflexivity]).
+      congruence. }
+    apply H. vm_compute. reflexivity.
+  - eexists. split; [vm_compute; reflexivity|]. split; vm_compute; reflexivity.
+Qed.
 
 (* the default record of encoder.rs::test_encode_with_default_fields *)
 Example c05_example_default :
